@@ -370,6 +370,18 @@ Section Transparent.
     - intros j Hj H. rewrite nth_repeat in H. lia.
     - unfold size. pose proof (len_nonneg _ file). lia.
   Qed.
+
+  Lemma lf_init_inv : forall cempty stale,
+    wf cempty -> (forall k, look cempty k = None) -> (card cempty <= cap)%nat -> length stale = cap ->
+    Inv (lf_init cache cempty stale).
+  Proof.
+    intros cempty stale Hwf Hlook Hcard Hlen.
+    unfold lf_init. constructor; cbn [lf_lru lf_allocs lf_storage lf_offset]; try assumption.
+    - rewrite repeat_length. assumption.
+    - intros k v H. rewrite Hlook in H. discriminate.
+    - intros j Hj H. rewrite nth_repeat in H. lia.
+    - unfold size. pose proof (len_nonneg _ file). lia.
+  Qed.
 End Transparent.
 
 (** * simplelru (the recency list) meets the contract *)
